@@ -302,6 +302,38 @@ def _c06(prop, tier, seed, jobs, limit):
         post=post)
 
 
+def _c19(prop, tier, seed, jobs, limit):
+    from . import c19
+
+    def post(cov, outs):
+        cov['pairs_evaluated_by_real_is_subhint'] = sum(getattr(o, 'pairs', 0) for o in outs)
+        cov['pairs_answered_true'] = sum(getattr(o, 'trues', 0) for o in outs)
+        sides = [getattr(o, 'side', {}) for o in outs if getattr(o, 'side', None)]
+        cov['concrete_side_conditions'] = {
+            'reflexive_all': all(s.get('reflexive') for s in sides),
+            'typehint_identity_all': all(s.get('typehint_identity') for s in sides),
+            'len_iter_getitem_agree_all': all(s.get('len_iter_agree', True) for s in sides),
+            'note': 'concrete observations on the enumerated hints, not solver coverage'}
+    return run_hint_family(prop, tier, seed, jobs, limit, run_case=c19.run_case, cases=c19.cases(tier, seed), post=post,
+                           funcs=['beartype.door._cls.doorsuper', 'beartype.door._cls.doormeta',
+                                  'beartype.door._cls.pep.doorpep484604', 'beartype.door._cls.pep.doorpep586',
+                                  'beartype.door._cls.pep.doorpep593', 'beartype.door._cls.pep.pep484585.doorpep484585tuple',
+                                  'beartype.door._cls.pep.pep484585.doorpep484585subscripted', 'beartype.door._func.doorfunc:is_subhint'],
+                           extra_assumptions=['only the soundness clause is decided; reflexivity, transitivity and TypeHint coherence are concrete side conditions',
+                                              'pairs are enumerated (the real is_subhint computes the relation); the solver quantifies over all objects of the universe at full depth, container length <= 3'])
+
+
+def _c20(prop, tier, seed, jobs, limit):
+    from . import c20
+    return run_hint_family(prop, tier, seed, jobs, limit, run_case=c20.run_case, cases=c20.cases(tier, seed),
+                           funcs=['beartype.bite._infermain', 'beartype.bite.collection.infercollectionbuiltin',
+                                  'beartype.bite.collection.infercollectionsabc', 'beartype.bite.collection.infercollectionitems',
+                                  'beartype.door._func.doorfunc:is_bearable'],
+                           extra_assumptions=['object skeletons (class trees, lengths) are enumerated; scalar payloads and the draw are solver variables',
+                                              'the recursion-warning clause (self-referential containers) is a termination observation and not claimed',
+                                              'objects whose inferred hint depends on payload values, third-party containers: outside'])
+
+
 def _simple(prop, tier, seed, jobs, limit):
     return run_hint_family(prop, tier, seed, jobs, limit)
 
@@ -356,6 +388,8 @@ RUNNERS = {
     'C03': _c03,
     'C06': _c06,
     'C17': _c17,
+    'C19': _c19,
+    'C20': _c20,
     'C09': _simple,
     'C10': _simple,
 }
